@@ -983,12 +983,17 @@ async def adrive(interp, gen, name):
                 req = gen.send(res)
     except StopIteration as s:
         return s.value
+    except (SimAbort, Unwind):
+        # the run is over (violation recorded / budget exceeded)
+        rc.aborted = True
+        return None
 
 
 async def _serve_async(rc, req):
     if req[0] == "pause":
         rc.pauses += 1
-        await asyncio.sleep(req[1] * 0.001)
+        # the delay is a scheduling decision, not part of the program
+        await asyncio.sleep(rc.sched_stream.choose(4, "delay") * 0.001)
         return None
     if req[0] == "join":
         pending = set(req[1])
